@@ -79,7 +79,7 @@ def rowsStr (r : Rows) : String :=
 def persStr (img : Image A) : String :=
   let marker := match img.marker with | none => "-" | some m => toString (cid m)
   let hidx := if img.created then natsStr ((suffixes img.best).reverse.map cid) else "-"
-  s!"best={cid img.best} marker={marker} rows={rowsStr img.rows} stored={natsStr (sortNat (img.stored.map cid))} journal={natsStr (sortNat (img.journal.map cid))} hidx={hidx} nutxo={img.utxo.length}"
+  s!"best={cid img.best} marker={marker} rows={rowsStr img.rows} stored={natsStr (sortNat (img.stored.map cid))} journal={natsStr (sortNat (img.journal.map cid))} hidx={hidx} nutxo={img.utxo.1.length}"
 
 def resStr : Option Res → String
   | none => "ok"
@@ -140,7 +140,7 @@ def reopenStr (cfg : Cfg) (img : Image A) (acked : List Chain) (ops : List Op) (
     let missing := (acked.filter (fun c => c ∉ keys rn.index)).length
     let chain := natsStr ((suffixes rn.tip).reverse.map cid)
     let after := runOps cfg rn (ops.filter isDeliver)
-    s!"r=ok,{cid rn.tip},{chain},{natsStr rn.utxo},{missing} fin={cid specTip};{cid after.tip};{natsStr after.utxo}"
+    s!"r=ok,{cid rn.tip},{chain},{natsStr rn.utxo.1},{missing} fin={cid specTip};{cid after.tip};{natsStr after.utxo.1}"
 
 def resList (recs : List OpRec) : String := ".".intercalate (recs.map (fun r => resStr r.res))
 
